@@ -34,7 +34,7 @@ CHECKS = [
         NOTE + "Not decided: 'the next solve equals a from-scratch solve' (solver correctness).",
         TECH, "DESIGN.md 4/C05"),
     chk("C06", "proof",
-        "Queries and single-entry edits of lib.c under contract at ghost indices (stored value is the value returned / the value given); unbounded where the loop does not read through an index map, otherwise map length capped (stated per group). Relocating and multi-entry edits as bounded groups against a dense reference view: ILLlib_chgcoef / getcoef (2-3 columns), ILLlib_delrows / delcols, ILLlib_chgsense / chgrange, ILLlib_addrow, and the symbol table (register / delete / lookup / index map, string pool compaction) on fixed operation scenarios; ILLlp_rows_init (row-major copy), ILLlib_getcols and ILLlib_getrows on a constructed pattern with the column map the identity or not; ILLlib_addcol against the dense reference view; the external / internal index mapping of ILLlib_solution.",
+        "Queries and single-entry edits of lib.c under contract at ghost indices (stored value is the value returned / the value given); unbounded where the loop does not read through an index map, otherwise map length capped (stated per group). Relocating and multi-entry edits as bounded groups against a dense reference view: ILLlib_chgcoef / getcoef (2-3 columns), ILLlib_delrows / delcols, ILLlib_chgsense / chgrange, ILLlib_addrow (arrays with room; every per-row / per-column array full so that each must grow; the very first row of a problem whose per-row arrays do not exist yet -- in the last two the growth steps EXTRA_ROWS / EXTRA_COLS are 2 instead of 100), and the symbol table (register / delete / lookup / index map, string pool compaction) on fixed operation scenarios; ILLlp_rows_init (row-major copy), ILLlib_getcols and ILLlib_getrows on a constructed pattern with the column map the identity or not; ILLlib_addcol against the dense reference view; the external / internal index mapping of ILLlib_solution.",
         NOTE, TECH, "DESIGN.md 4/C06"),
     chk("C07", "proof",
         "Modular proofs (CBMC dfcc contract enforcement, symbolic array sizes up to 30000) that the functions under contract reject invalid arguments with a non-zero code and an empty frame (conditional assigns), with all pointer/bounds/overflow checks discharged; QSset_param / QSget_param over every parameter code and value (loop-free, full domain); deletion lists that name an index twice, ILLlib_addcol with an out-of-range row index (nothing, the name table included, may change).",
